@@ -37,6 +37,24 @@ def probe_atoms(facts, kind, cls_name):
     return out
 
 
+def probe_first(facts, kind, cls_name):
+    """the atoms of the EARLIEST epoch (fewest own mutations before the probe) among probe_atoms"""
+    at = probe_atoms(facts, kind, cls_name)
+    if not at:
+        return []
+    m = min(len(a[3]) for a in at)
+    return [a for a in at if len(a[3]) == m]
+
+
+def probe_last(facts, kind, cls_name):
+    """the atoms of the LATEST epoch among probe_atoms"""
+    at = probe_atoms(facts, kind, cls_name)
+    if not at:
+        return []
+    m = max(len(a[3]) for a in at)
+    return [a for a in at if len(a[3]) == m]
+
+
 def ev_muts_since_tagging(ev, atom):
     """mutations recorded in the probe's epoch that belong to the tagging step itself (a probe
     evaluated after the tagging step started writing is not the four-way split)"""
@@ -246,7 +264,7 @@ def check_C04(A: Analysis, tier):
         for ev in it.events:
             if ev.func.qual != Q("_move_and_get_checksums") and Q("_move_and_get_checksums") not in ev.ctx:
                 continue
-            atoms = probe_atoms(ev.facts, "isfile", "OBJ")
+            atoms = probe_first(ev.facts, "isfile", "OBJ")     # the test that decides "already stored", not a re-test after a failed move
             if not any(F.implied(ev.facts, a) is True for a in atoms):
                 continue
             rc.ob()
